@@ -17,3 +17,10 @@ pub open spec fn line_ip(f: &Fiber, j: int) -> int {
 }
 /// the code offset a traceback line is looked up at: the byte before the saved instruction pointer
 pub open spec fn line_at(frame: CallFrame, ip: int) -> int { if code_off(frame, ip) >= 1 { code_off(frame, ip) - 1 } else { 0 } }
+
+/// how many backtrace lines an error caught by `handler` gets: the frames from the top down to the handler's own, as far as ips were saved
+pub open spec fn bt_len(f: &Fiber, handler: &ExceptionHandler) -> int {
+  let want = f.frames@.len() - handler.call_frame_depth + 1;
+  let a = if want < f.frames@.len() { want } else { f.frames@.len() as int };
+  if a < f.backtrace_ips@.len() { a } else { f.backtrace_ips@.len() as int }
+}
